@@ -14,7 +14,7 @@ A unit template (contracts/<unit>.rs.in) is ordinary Rust/Verus text with direct
   //@ end
 
 Signature and body are copied verbatim from the working tree, then the documented rewrite rules
-(R1 err-text, R2 attributes/visibility, R6 let-chains, R7 named return, R8 Self::Item expansion, R9 `|_|` closure parameter named, R13 closure contract; opt-in: R10, R12, R14, R15) are applied by pattern and
+(R1 err-text, R2 attributes/visibility, R6 let-chains, R7 named return, R8 Self::Item expansion, R9 `|_|` closure parameter named, R13 closure contract; opt-in: R10, R12, R14, R15, R16) are applied by pattern and
 counted.  Everything the template adds is ghost (requires/ensures/invariant/decreases/proof).
 A directive whose anchor cannot be found raises AnchorError => the unit is 'undecided'.
 """
@@ -217,6 +217,41 @@ def rule_R6(text, counts):
         text = text[:mt.start()] + new + text[cb + 1:]
         counts["R6"] = counts.get("R6", 0) + 1
         start = mt.start() + 2
+
+
+def rule_R16(text, counts):
+    """for (A, B) in E.enumerate() { BODY }   =>   the definition of `for` over `Enumerate<I>`:
+         { let mut enum_iter = E; let mut enum_count: usize = 0;
+           loop { let enum_item = enum_iter.next(); if enum_item.is_none() { break; }
+                  let B = enum_item.unwrap(); let A = enum_count; enum_count += 1;   // Enumerate::next
+                  BODY } }
+    (A, B plain identifiers; BODY without `continue`, whose meaning would not change but is not needed).  The counter
+    is incremented where std's Enumerate::next increments it, so its overflow check is the one of the real loop."""
+    start = 0
+    while True:
+        m = mask(text)
+        mt = re.compile(r"\bfor\s*\(\s*(\w+)\s*,\s*(\w+)\s*\)\s*in\b").search(m, start)
+        if not mt:
+            return text
+        ob = next_at_depth0(m, mt.end(), "{")
+        if ob < 0:
+            raise AnchorError("R16: loop without body")
+        expr = text[mt.end():ob].strip()
+        if not expr.endswith(".enumerate()"):
+            start = mt.end()
+            continue
+        expr = expr[:-len(".enumerate()")]
+        cb = match_close(m, ob)
+        if re.search(r"\bcontinue\b", m[ob:cb]):
+            raise Unsupported("R16: `continue` inside an enumerate() loop")
+        a, b = mt.group(1), mt.group(2)
+        new = ("{ let mut enum_iter = " + expr + "; let mut enum_count: usize = 0;\n        loop {\n"
+               "            let enum_item = enum_iter.next(); if enum_item.is_none() { break; }\n"
+               f"            let {b} = enum_item.unwrap(); let {a} = enum_count; enum_count += 1;"
+               + text[ob + 1:cb] + "} }")
+        text = text[:mt.start()] + new + text[cb + 1:]
+        counts["R16"] = counts.get("R16", 0) + 1
+        start = mt.start() + 4
 
 
 def rule_R7(sig, ret, counts):
@@ -478,6 +513,8 @@ def build_unit(template, repo, out_path, contracts_dir=None, vacuity=False):
         body = rule_R2(body, local)
         body = rule_R1(body, local)
         body = rule_R6(body, local)
+        if opts.get("enum") == "desugar":
+            body = rule_R16(body, local)
         if opts.get("expect") == "unchecked":
             # R10 (opt-in, counted): `.expect(msg)` -> `.expect_unchecked(msg)`, a prelude method
             # without precondition: a panic from this expect is NOT decided by the unit (the model
